@@ -146,6 +146,10 @@ where
     pub fn build<P: Into<PathBuf>>(&mut self, file: P) -> BuildResult {
         let file = crate::path::normalize_absolute(file.into());
         self.working_dir = file.parent().unwrap().to_path_buf();
+        // One output per file and per build of that file. The lock of an
+        // earlier build, or of an import by another file of the same run,
+        // does not count against this one.
+        self.environment.borrow_mut().reset_out_lock_for_path(&file);
         let ptr = self.environment.borrow_mut().get_ops_for_path(&file)?;
         let eval_result = self.eval_ops(ptr, Some(file.clone()));
         match eval_result {
